@@ -150,7 +150,7 @@ def coq_term(c, io):
     return (f"(CGraph (mkCase {coq_world(c['world'])} {coq_mode(c)} {cstring(c['root'])} {cstring(c['rootid'])} {coq_impl(d)}))")
 
 
-KCLASS = {0: None, 1: "known_C03_K1_spelled_module_url", 2: "known_C03_K2_variable_through_forward"}
+KCLASS = {0: None, 2: "known_C03_K2_variable_through_forward"}
 
 
 def judge(c, io, r):
